@@ -26,6 +26,20 @@ func (d *driver) runOtherFamily(fam, in string, sh *shards) bool {
 			d.runTranscriptProgram(sh.at(shard), k, line)
 		})
 		return true
+	case "commit":
+		cfg := getConf()
+		for _, tw := range sh.ws {
+			tw.emit(configEvent(cfg))
+		}
+		rr := &roundRobin{sh: sh}
+		forEachLine(in, 1, func(shard, k int, line []byte) {
+			var c commitCase
+			if err := json.Unmarshal(line, &c); err != nil {
+				panic(err)
+			}
+			d.runCommitCase(rr, k, &c)
+		})
+		return true
 	case "poly":
 		getConf()
 		rr := &roundRobin{sh: sh}
